@@ -1,1 +1,2 @@
 import Generated.FileConsts
+import Generated.LpLabels
